@@ -313,6 +313,8 @@ namespace wq
             n = MAXEV;
         const void *node[MAXT] = {nullptr};
         int st[MAXT] = {0}; // 0 none, 1 called, 2 parked, 3 unlinked
+        uint32_t pidx[MAXT] = {0}, uidx[MAXT] = {0};
+        long utok[MAXT] = {0};
         for (uint32_t i = 0; i < n; i++)
         {
             Ev &e = g_log[i];
@@ -324,12 +326,17 @@ namespace wq
             {
                 st[e.tid] = 2;
                 node[e.tid] = e.node;
+                pidx[e.tid] = i;
             }
             else if (e.kind == E_UNLINK)
             {
                 for (int t = 0; t < MAXT; t++)
                     if (st[t] == 2 && node[t] == e.node)
+                    {
                         st[t] = 3;
+                        uidx[t] = i;
+                        utok[t] = (long)e.token;
+                    }
             }
             else if (e.kind == E_WRET && e.tid < MAXT)
                 st[e.tid] = 0;
@@ -339,9 +346,9 @@ namespace wq
             if (!g_thr[t].done.load() && st[t] == 3)
             {
                 vf::fail_nothrow("wq:lost-wakeup",
-                                 "deadlock: waiter thread %d was unlinked by an unwait (so it is no longer in any list) but never "
-                                 "returned from wait_current_schedee; log: %s",
-                                 t, log_tail(n, 24).c_str());
+                                 "deadlock: waiter thread %d parked at event %u, was unlinked at event %u by an unwait with token %lx (so it "
+                                 "is no longer in any list) but never returned from wait_current_schedee; log around the unlink: %s",
+                                 t, pidx[t], uidx[t], utok[t], log_tail(uidx[t] + 4, 16).c_str());
                 reported = true;
                 break;
             }
